@@ -177,8 +177,12 @@ func run(c *core.Ctx) {
 				res := func(k int) []int { return []int{k, k + 1, k + 2}[:arity] }
 				// one goroutine: the first function aborts, two more calls follow
 				exec(c, Case{Arity: arity, Progs: [][]Call{{{steps, res(1), exit}, {1, res(4), ""}, {0, res(7), exit}}}, Jitter: c.Rng.Uint64()})
-				// two goroutines, goroutine 1 is alone at first (goroutine 0 is a late caller) and its function aborts
-				exec(c, Case{Arity: arity, Progs: [][]Call{{{0, res(1), ""}, {0, res(2), ""}}, {{steps, res(4), exit}, {0, res(7), ""}}}, Late: 0, Gate: steps == 1, Jitter: c.Rng.Uint64()})
+				// three goroutines: goroutine 0 makes no call, goroutine 1 is therefore the only caller at first and
+				// its function aborts (with a further call after recover); goroutine 2 is a late caller
+				exec(c, Case{Arity: arity, Progs: [][]Call{{}, {{steps, res(4), exit}, {0, res(7), ""}}, {{0, res(1), ""}, {0, res(2), ""}}},
+					Late: 1, Gate: steps == 1, Jitter: c.Rng.Uint64()})
+				// two goroutines racing, both functions abort
+				exec(c, Case{Arity: arity, Progs: [][]Call{{{steps, res(1), exit}}, {{2 - steps, res(4), exit}, {0, res(7), ""}}}, Jitter: c.Rng.Uint64()})
 			}
 		}
 	}
@@ -236,6 +240,12 @@ func run(c *core.Ctx) {
 			late = c.Rng.Intn(n)
 		}
 		exec(c, Case{Arity: arity, Progs: mkProgs(c.Rng, arity, n, 3, 3, c.Rng.Chance(60)), Gate: c.Rng.Chance(10), Late: late, Jitter: c.Rng.Uint64()})
+	}
+	for _, k := range []string{"aborting_function_of_a_goroutine_other_than_0", "aborting_function_after_user_steps", "recover_then_Do_again",
+		"invoked_function_exits_by_panic", "invoked_function_exits_by_goexit"} {
+		if c.Stats[k] == 0 {
+			c.Unobservable("no scenario reached: " + k)
+		}
 	}
 }
 
